@@ -31,6 +31,13 @@ def _canon(o):
     return o
 
 
+def _sorted_components(doc):
+    """instance() collects the components from a set: their order in the file is not part of the description"""
+    if isinstance(doc, dict) and isinstance(doc.get('components'), list):
+        doc['components'] = sorted(doc['components'], key=lambda c: (c.get('stage', 0), str(c.get('name'))))
+    return doc
+
+
 def snapshot(exp):
     g = exp.experimentGraph
     gr = g.graph
@@ -123,7 +130,7 @@ def drive(case):
             return {'error': 'create:no-instance-file'}
         obs['live'] = snapshot(exp)
         bytes0 = open(ipath, 'rb').read()
-        stored = yaml.safe_load(bytes0)
+        stored = _sorted_components(yaml.safe_load(bytes0))
         obs['stored'] = stored
         # the user variables as the experiment layered them (input/variables.yaml of the instance)
         upath = os.path.join(inst, 'input', 'variables.yaml')
@@ -140,7 +147,7 @@ def drive(case):
             reloads.append(snapshot(exp2))
             b = open(ipath, 'rb').read()
             same_bytes.append(b == bytes0)
-            again.append(yaml.safe_load(b))
+            again.append(_sorted_components(yaml.safe_load(b)))
         obs['reloads'] = reloads
         obs['same_bytes'] = same_bytes
         obs['stored_again'] = again
